@@ -34,6 +34,9 @@ def _behaviour(spec, seed):
             kw[k] = tuple(kw[k])
     if kind == "random":
         return behave.RandomBehaviour(spec.get("seed", seed), **kw)
+    if kind == "faultplan":
+        plan = kw.pop("plan")
+        return behave.FaultPlanBehaviour(spec.get("seed", seed), plan, **kw)
     if kind == "faulty":
         fault = kw.pop("fault")
         return behave.FaultyBehaviour(spec.get("seed", seed), fault, **kw)
